@@ -267,7 +267,9 @@ class WrapHandlerTask(Task):
                 r = I.choose(2, "release requested?") == 1
                 I.trace.append(Ev("is_release_requested", (r,)))
                 if r:
-                    g["release_consumed"] = True          # ACSE.is_release_requested POPS the indication (acse.py)
+                    g["release_seen"] = True
+                    if kw.get("consume", True) is not False:
+                        g["release_consumed"] = True      # the consuming mode of ACSE.is_release_requested POPS the indication
                 return r
             return NotImplemented
         c.env_call = env_call
@@ -313,7 +315,7 @@ class WrapHandlerTask(Task):
         if g.get("raised"):
             I.ob(f"{P}/a-handler-exception-becomes-one-last-(None,exc_info)-element",
                  len(ys) == 1 and ys[0][0] is None and isinstance(ys[0][1], tuple))
-        elif g.get("in_iter") and (g.get("aborted") or g.get("release_consumed")):
+        elif g.get("in_iter") and (g.get("aborted") or g.get("release_seen")):
             I.ob(f"{P}/stops-without-passing-the-result-on-when-the-association-was-aborted-or-release-was-requested", len(ys) == 0)
             # C07: the release indication must still be pending for the reactor to answer it
             I.ob(f"C07/{WRAP}/a-release-request-seen-between-results-is-left-for-the-reactor-to-answer",
